@@ -1126,7 +1126,9 @@ def wl_cli(ctx, rng):
     ctx.close('cli-S=library', txt[:, 1], want, 1e-13, what='spectrum', mode=mode)
     if snr is not None:
         noise = np.ones(want.shape) * (want.max() - want.min()) / snr
-        ctx.close('cli-S=library', txt[:, 2], noise, 1e-12, what='noise', snr=snr)
+        # the noise is a DIFFERENCE of two spectrum values: the 1e-13 agreement of the spectra (above) carries over as
+        # 2e-13 * max|spectrum| / snr in absolute terms, however small max - min is
+        ctx.close('cli-S=library', txt[:, 2], noise, 1e-12, atol=2e-13 * float(np.max(np.abs(want))) / snr, what='noise', snr=snr)
     else:
         ctx.close('cli-S=library', txt[:, 2], np.zeros(len(want)), 0.0, what='error column')
     with h5py.File(out, 'r') as f:
